@@ -16,7 +16,8 @@ Layers (each is what one C++ routine does; nothing else carries state between ca
 Quirks reproduced (see `step`, `flushLine`): `;` and `#` lose their meaning directly after `\`; a `\` followed only by
 blanks up to the newline joins the next physical line and drops the blanks; a comment that runs into the end of the
 input without newline gets its last character doubled (unless that character is `;`); the include directive is
-recognised on every non-empty line (the push of the named file is NOT modelled: `CLine.incl` reports the name).
+recognised on every non-empty line; `readLinesFS` follows it through a file system (`push_istream` of the named file, `pop_istream`
+at its end), `readLines` only reports the name in `CLine.incl`.
 -/
 namespace PhreeqcVerif.LineReader
 open PhreeqcVerif.Gen.Keywords
@@ -214,5 +215,63 @@ def simulations (s : Bytes) : List (List CLine) := sims (readLines s)
 
 /-- `s` can be cut after itself: the reader is between lines and no simulation is open -/
 def endBoundary (s : Bytes) : Bool := closed s && (openAfter [] (readLines s)).isEmpty
+
+/-! ### user number of a keyword line (`read_number_description`, the error-free cases) -/
+
+def isDigit (c : UInt8) : Bool := 48 ≤ c && c ≤ 57
+
+/-- second token of the line: leading decimal digits (`sscanf "%d"`), 1 when it does not start with a digit;
+    `none` for a token starting with `-` (ranges / negative numbers are not predicted) -/
+def userNumber (line : Bytes) : Option Nat :=
+  let (_, rest) := copyToken line
+  let (tok, _) := copyToken rest
+  match tok with
+  | [] => some 1
+  | c :: _ =>
+    if isDigit c then some ((tok.takeWhile isDigit).foldl (fun n d => 10 * n + (d.toNat - 48)) 0)
+    else if c = c_dash then none
+    else some 1
+
+/-- user numbers of the keyword lines with keyword `k` in one simulation -/
+def keywordNumbers (k : Nat) (sim : List CLine) : List (Option Nat) :=
+  (sim.filter fun l => l.ltype == .keyword k).map fun l => userNumber l.line
+
+/-! ### include directives: the stream stack of `get_line`
+
+`get_line` opens the named file, pushes it in front of the current stream and keeps reading from it; at its LT_EOF the stream
+is popped and reading continues behind the directive.  Each stream has its own position and its own `getc` state, so the
+lines returned are: the lines before the directive, all lines of the file (recursively), the lines after it.  A file that
+cannot be opened raises an error (`missing`).  The real code has no depth limit (a file that includes itself is read until
+the process runs out of file handles); the model carries a depth budget and reports `tooDeep` when it is used up. -/
+
+inductive Item where
+  | line (l : CLine)
+  | missing (name : Bytes)        -- "Could not open include file …", error_msg(…, OT_STOP)
+  | tooDeep (name : Bytes)        -- depth budget of the model exhausted (not a behaviour of the code)
+deriving DecidableEq, Repr
+
+/-- `fs name` = content of the file the directive names -/
+def readLinesFS (fs : Bytes → Option Bytes) : Nat → Bytes → List Item
+  | 0, s => (readLines s).map fun l => match l.incl with | some f => .tooDeep f | none => .line l
+  | d + 1, s => (readLines s).flatMap fun l =>
+      match l.incl with
+      | some f => (match fs f with | some c => readLinesFS fs d c | none => [.missing f])
+      | none => [.line l]
+
+def Item.line? : Item → Option CLine
+  | .line l => some l
+  | _ => none
+
+/-- every directive was followed to a readable file within the budget -/
+def resolved (items : List Item) : Bool := items.all fun i => i.line?.isSome
+
+/-- the lines the engine gets, include files spliced in -/
+def linesFS (fs : Bytes → Option Bytes) (d : Nat) (s : Bytes) : List CLine := (readLinesFS fs d s).filterMap Item.line?
+
+def simulationsFS (fs : Bytes → Option Bytes) (d : Nat) (s : Bytes) : List (List CLine) := sims (linesFS fs d s)
+
+/-- END boundary of the top-level text when include files are followed -/
+def endBoundaryFS (fs : Bytes → Option Bytes) (d : Nat) (s : Bytes) : Bool :=
+  closed s && (openAfter [] (linesFS fs d s)).isEmpty
 
 end PhreeqcVerif.LineReader
